@@ -3,6 +3,7 @@ import ast
 import re
 
 from ..alg import Rat
+from ..report import weighed
 from ..loader import shape_error, anchor_error, mangle
 from ..sx import Walker, State, Event
 from ..effects import Effects
@@ -1047,6 +1048,6 @@ def rule_J(ctx):
 RULES = [
     ('C01.H', rule_H, 'quick'),
     ('C01.J', rule_J, 'quick'),
-    ('C01.F', rule_F, 'quick'),
+    ('C01.F', weighed('C01.F', rule_F, ('C01.H', 'C01.J')), 'quick'),
 ]
 MIN_OBLIGATIONS = 5
